@@ -359,6 +359,12 @@ func schedChild(args []string) int {
 				if !ok {
 					continue
 				}
+				// the value as the FIRST of two `**` expansions of a call and of two literals (what
+				// is merged must never be merged into the value itself); errors are absorbed
+				lines = append(lines,
+					fmt.Sprintf("[1]~@{|x| {|| \\_.keys.len}(**%s, **{zq_%s: 1})}", name, name),
+					fmt.Sprintf("[1]~@{|x| {**%s, **{zr_%s: 1}}.keys.len}", name, name),
+					fmt.Sprintf("[1]~@{|x| %%{**%s, **{zs_%s: 1}}.len}", name, name))
 				for _, pn := range tabs.propsFor(v) {
 					if !plainName.MatchString(pn) {
 						continue
